@@ -44,7 +44,22 @@ LEMMA StepInv == Inv /\ [Next]_vars => Inv'
   <2>3. L[0] \in Int /\ L[1] \in Int /\ L[2] \in Int /\ L[3] \in Int
     OBVIOUS
   <2>4. c[1] \in Int /\ c[2] \in Int /\ c[3] \in Int /\ c[1] + c[2] + c[3] = L[0] - L[3]
-    BY <2>3 DEF Perms, Feat
+    \* (case analysis over the six orders, so that no single obligation is heavy enough to time out on a loaded machine)
+    <3>0. p[1] \in 1..3 /\ p[2] \in 1..3 /\ p[3] \in 1..3 /\ p[1] # p[2] /\ p[1] # p[3] /\ p[2] # p[3]
+      BY DEF Perms, Feat
+    <3>1. CASE p[1] = 1 /\ p[2] = 2
+      BY <3>1, <3>0, <2>3 DEF Feat
+    <3>2. CASE p[1] = 1 /\ p[2] = 3
+      BY <3>2, <3>0, <2>3 DEF Feat
+    <3>3. CASE p[1] = 2 /\ p[2] = 1
+      BY <3>3, <3>0, <2>3 DEF Feat
+    <3>4. CASE p[1] = 2 /\ p[2] = 3
+      BY <3>4, <3>0, <2>3 DEF Feat
+    <3>5. CASE p[1] = 3 /\ p[2] = 1
+      BY <3>5, <3>0, <2>3 DEF Feat
+    <3>6. CASE p[1] = 3 /\ p[2] = 2
+      BY <3>6, <3>0, <2>3 DEF Feat
+    <3> QED BY <3>0, <3>1, <3>2, <3>3, <3>4, <3>5, <3>6
   <2>5. imp[1] \in Int /\ imp[2] \in Int /\ imp[3] \in Int /\ ml \in Int /\ mo \in Int /\ imp[1] + imp[2] + imp[3] = ml - mo
     BY DEF Inv, TypeOK, Efficiency, Feat
   <2>6. imp'[1] = P * imp[1] + Q * c[1] /\ imp'[2] = P * imp[2] + Q * c[2] /\ imp'[3] = P * imp[3] + Q * c[3]
